@@ -59,18 +59,20 @@ func (s *Spec) Encoded() []byte {
 		return DeflateVariant(s.Payload, "flush")
 	case "deflate-stored":
 		return DeflateVariant(s.Payload, "stored")
+	case "deflate-zlibish":
+		return DeflateVariant(s.Payload, "zlibish")
 	}
 	return s.Payload
 }
 
 // EncVariants are the content codings beyond the one-shot streams (header value gzip / deflate).
-var EncVariants = []string{"gzip-multi", "gzip-multi", "gzip-hdr", "gzip-flush", "deflate-flush", "deflate-stored"}
+var EncVariants = []string{"gzip-multi", "gzip-multi", "gzip-hdr", "gzip-flush", "deflate-flush", "deflate-stored", "deflate-zlibish", "deflate-zlibish"}
 
 func (s *Spec) CEHeader() string {
 	switch s.Enc {
 	case "gzip", "gzip-bad", "gzip-multi", "gzip-hdr", "gzip-flush":
 		return "gzip"
-	case "deflate-flush", "deflate-stored":
+	case "deflate-flush", "deflate-stored", "deflate-zlibish":
 		return "deflate"
 	case "":
 		return ""
@@ -241,6 +243,10 @@ func Gen(r *core.Rand, req bool, maxBody int) *Spec {
 		}
 		if r.Chance(3, 4) {
 			s.URL = "http://" + host + path + q
+			if r.Chance(1, 4) {
+				// userinfo in the request URL: user only, user:password, empty password, escapes
+				s.URL = "http://" + r.Pick("alice", "alice:s3cret", "alice:", "a%40b:p%3Aw%2F", ":pw", "u%20ser:p%25", "x:y:z"[:3]) + "@" + host + path + q
+			}
 			s.Host = host
 		} else {
 			s.URL = path + q
